@@ -45,7 +45,7 @@ func (c RangeCase) render() string {
 	end := func(v int64, unb bool) string {
 		if c.Kind == "num" {
 			if unb {
-				return "inf"
+				return "unbounded"
 			}
 			return fmt.Sprintf("%v[%#x]", floatOfSortable(v), math.Float64bits(floatOfSortable(v)))
 		}
